@@ -239,7 +239,7 @@ PROPS = {
         "level_text": "Generated histories end in one of three terminal steps: A - fitness adjustment and apportionment called separately (shared fitness factor, expected offspring = adjusted / population mean, quota within one of the members' sum plus at most one make-up offspring, zero-quota species removed, elimination flags = everything outside the top floor(s*n)+1); "
                       "B - the executor's own preparation phase (quotas still total the population size after stealing / delta coding, no negative quota, species lists are the top set, every species produces exactly its quota); C - plain NextEpoch (totals and expected-offspring relation on the old generation's objects).",
         "level_note": "trusted: the arithmetic model (bounds, not a re-implementation of the carry loop); the per-species adjustment factor is only required to be a product of the documented penalty 0.01 and the age significance, divided by the species size - the ages at which they apply are not asserted",
-        "rule": "G-epochs scenarios (fitness programs with positive values, DropOffAge 1-8, babies stolen 0..PopSize/2, population 4-40), 0-19 ordinary epochs, then the terminal step; non-trivial = at least two species with different sizes or ages; distinct by (step, generation, #species, #sizes, #ages, size, stolen)",
+        "rule": "G-epochs scenarios (fitness programs with at least one positive value incl. values of both signs, scales from 5e-324 to 1e305, DropOffAge 1-8, babies stolen 0..PopSize/2, population 4-40; one history in six repeats a cancelled turnover after a new evaluation), 0-19 ordinary epochs, then the terminal step; non-trivial = at least two species with different sizes or ages; distinct by (step, generation, #species, #sizes, #ages, size, stolen)",
         "assumptions": ["at least one positive fitness value (cases without are skipped and counted)", "sequential executor phases"],
         "expect_classes": {"stepwise": ["terminal step A", "terminal step B", "terminal step C", "several species", "stagnation penalty active", "youth boost active", "species purged for a zero quota", "species that loses members before reproduction", "survival threshold keeps the whole species", "species with a zero quota did not reproduce", "babies stolen configured", "organism with a negative raw fitness", "turnover repeated after a cancelled attempt and a new evaluation", "mean adjusted fitness below 2^-900 (quotients formed from scaled values)"]},
     },
